@@ -1624,7 +1624,10 @@ class Wtp:
 
                     # Construct and expand template arguments
                     self.expand_stack.append("Template:" + name)
-                    if detect_expand_template_loop(self.expand_stack):
+                    # (the first entry is the title of the page being
+                    # processed, not an open template: the page of a template
+                    # may well call that template)
+                    if detect_expand_template_loop(self.expand_stack[1:]):
                         parts.append(
                             '<strong class="error">Template loop detected: '
                             f"[[:Template:{name}]]</strong>"
